@@ -39,7 +39,7 @@ Flags == [sh : BOOLEAN, be : BOOLEAN, ueh : BOOLEAN, weid : BOOLEAN, wsid : BOOL
 Kinds(ueh) == IF ueh THEN {"v", "nv", "ctl", "nw0", "nw2", "nvx"} ELSE {"nv", "nv0"}
 PayloadOf(k, args) ==
   CASE k = "v" -> <<"v", args>> [] k = "nv" -> <<"nv", <<1, 2, 3, 4>>, <<5, 6>>>> [] k = "nv0" -> <<"nv", <<1, 2, 3, 4>>, <<>>>>
-    [] k = "nvx" -> <<"nv", <<0, 0, 1, 0>>, <<68, 76, 84, 1>>>>
+    [] k = "nvx" -> <<"nv", <<0, 0, 1, 0>>, <<68, 76, 84, 1, 9, 9, 9>>>>
     [] k = "ctl" -> <<"ctl", 2, <<8>>>> [] k = "nw0" -> <<"nw", <<>>>> [] k = "nw2" -> <<"nw", <<<<1, 2>>, <<>>>>>>
 MtFor(k) == CASE k = "v" -> <<0, 4>> [] k \in {"nv", "nv0"} -> <<1, 9>> [] k = "nvx" -> <<5, 15>> [] k = "ctl" -> <<3, 1>> [] k \in {"nw0", "nw2"} -> <<2, 6>>
 MkMsg(f, k, args) ==
